@@ -57,7 +57,8 @@ structure TxnM where
   lastAdvise : Nat := 0
   buffer : List BufEntry := []
   statusAnswers : List (Nat × Bool) := []            -- (commitTS, rolledBack) answers of CheckTxnStatus on its primary
-  ttlSeen : Option Nat := none                       -- ttl of a lock of this txn as reported in a KeyIsLocked error
+  ttlSeen : Option Nat := none                       -- smallest ttl of a lock of this txn reported in a KeyIsLocked error
+  relaxLocks : Bool := false                         -- aggressive locking was used: lock-only mutations are not predicted (rule 9)
   deriving Repr, Inhabited
 
 structure MState where
@@ -93,6 +94,7 @@ inductive Ev
   | resolve (client : String) (fate : Fate) (startTS commitTS : Nat) (infos : List (Nat × Nat))
   | heartbeat (client : String) (fate : Fate) (primary : Bytes) (startTS advise : Nat)
   | lockSeen (client : String) (lockTS ttl : Nat)            -- a KeyIsLocked error delivered to `client`
+  | relaxLocks (client : String) (startTS : Nat)            -- aggressive locking call seen for this transaction
   deriving Repr
 
 def isGC (client : String) : Bool := client.startsWith "gc"
@@ -105,6 +107,11 @@ def expectedMuts (t : TxnM) : List (Bytes × Op × Bytes) :=
 
 def sameMuts (a b : List (Bytes × Op × Bytes)) : Bool :=
   a.all (fun x => b.contains x) && b.all (fun x => a.contains x)
+
+/-- rule 9 comparison; with aggressive locking the set of lock-only mutations depends on which locks the retries kept,
+    which the monitor does not model: lock-only mutations are then left out on both sides -/
+def mutsAgree (relax : Bool) (a b : List (Bytes × Op × Bytes)) : Bool :=
+  if relax then sameMuts (a.filter (·.2.1 != .lock)) (b.filter (·.2.1 != .lock)) else sameMuts a b
 
 def bufUpd (buf : List BufEntry) (key : Bytes) (f : BufEntry → BufEntry) : List BufEntry :=
   if buf.any (·.key == key) then buf.map fun b => if b.key == key then f b else b
@@ -127,7 +134,7 @@ def checksOf (m : MState) : Ev → List (Bool × String)
         "rule7 commit_ts not above a timestamp issued before Commit was called"),
       (keys.all fun k => prewrittenKeys.contains k, "rule1 commit of a key whose prewrite was not acknowledged"),
       (t.attemptedKeys.all fun k => t.prewritten.any (·.1 == k), "rule1 commit before every prewrite was acknowledged"),
-      (t.buffer.isEmpty || sameMuts t.prewritten (expectedMuts t), "rule9 prewritten mutations differ from the buffered writes"),
+      (t.buffer.isEmpty || mutsAgree t.relaxLocks t.prewritten (expectedMuts t), "rule9 prewritten mutations differ from the buffered writes"),
       (match t.primary with | some p => prewrittenKeys.contains p | none => false, "rule8 primary is not one of the locked mutations"),
       (hasPrimary || t.primaryCommitted.isSome, "rule2 secondary committed before the primary commit succeeded"),
       (match t.primaryCommitted with | some c => c == commitTS | none => true,
@@ -175,7 +182,10 @@ def applyEv (m : MState) : Ev → MState
     m.upd { t with buffer := keys.foldl (fun buf k => bufUpd buf k fun b => { b with locked := true }) t.buffer }
   | .commitCalled client startTS => m.upd { (m.get startTS client) with commitCallTSO := some m.maxTSO }
   | .ended client startTS => m.upd { (m.get startTS client) with ended := true }
-  | .lockSeen client lockTS ttl => m.upd { (m.get lockTS client) with ttlSeen := some ttl }
+  | .lockSeen client lockTS ttl =>
+    let t := m.get lockTS client
+    m.upd { t with ttlSeen := some (match t.ttlSeen with | some x => min x ttl | none => ttl) }
+  | .relaxLocks client startTS => m.upd { (m.get startTS client) with relaxLocks := true }
   | .prewrite client fate startTS primary muts _minReq ok minResp _tryOnePC _async _secondaries =>
     let t := m.get startTS client
     let acked := fate == .answered && ok
